@@ -161,6 +161,15 @@ def _skeletons(repo, out, notes):
         out.append("def skelRes%s : List String := %s" % (fname, lean_list(lean_str(r) for r in res)))
         flat = [x for k in sorted(sites) for x in sites[k]]
         out.append("def patchSites%s : List String := %s" % (fname, lean_list(lean_str(r) for r in flat)))
+    # the PEP 517 path: scratch directory, the lock, the process working directory, the stream/argv substitutions
+    pp = os.path.join(repo, "req_compile/metadata/pyproject.py")
+    for fname in ["_parse_from_prepared_metadata", "_parse_from_wheel"]:
+        term, res, sites, err = skeleton.function_skeleton(pp, fname)
+        if err:
+            notes.append("skeleton of %s: UNTRANSLATABLE (%s)" % (fname, err))
+        out.append("/-- regenerated from req_compile/metadata/pyproject.py:%s%s -/" % (fname, " — UNTRANSLATABLE: " + err.replace("-/", "- /") if err else ""))
+        out.append("def skel%s : PT.Stmt := %s" % (fname, term))
+        out.append("def skelRes%s : List String := %s" % (fname, lean_list(lean_str(r) for r in res)))
     # the command line's wheel directory, once as the user's (it exists on entry) and once as a temporary one
     cl = os.path.join(repo, "req_compile/cmdline.py")
     for label, consts, pre in (("user", {"wheeldir": True, "delete_wheeldir": False}, ["tmpdir:wheeldir"]),
